@@ -175,6 +175,88 @@ def exhaustive(cfg):
     return meta
 
 
+def conc_trace_validate(V, runs, tag):
+    """B2: the lock-acquisition logs of scheduled real executions are behaviours of Conc.tla (spec/ConcTrace.tla).
+    runs: [(scenario, log events)].  A log the specification cannot explain is MODEL DRIFT (reported in the evidence, DESIGN 4
+    C09: the verdict stays with the sequential-outcome oracle, so that a harmless change of the locking shape raises no alarm);
+    an invariant of Conc.tla violated in a validated state is a violation."""
+    import re
+    import subprocess
+    import time
+    os.makedirs(os.path.join(C.BUILD, "tmp"), exist_ok=True)
+    path = os.path.join(C.BUILD, "tmp", "conc-trace-%s-%d.ndjson" % (tag, os.getpid()))
+
+    def norm_sc(sc):
+        jobs = sc["job"]
+        jl = jobs if isinstance(jobs, list) else [jobs[k] for k in sorted(jobs, key=int)]
+        return {"prev": sc["prev"], "job": jl}
+
+    def write(rs):
+        spans, n = [], 0
+        with open(path, "w") as fh:
+            for sc, log in rs:
+                evs = [dict(ev="reset", t=0, map="-", mode="-", shard=0, **norm_sc(sc))]
+                evs += [{"ev": "lock", "t": e["t"], "map": e["map"], "mode": e["mode"], "shard": e["shard"], "prev": {}, "job": []}
+                        for e in log if e["ph"] == "acq" and e["t"] in (1, 2)]
+                evs.append({"ev": "end", "t": 0, "map": "-", "mode": "-", "shard": 0, "prev": {}, "job": []})
+                spans.append((n + 1, n + len(evs)))
+                n += len(evs)
+                for e in evs:
+                    fh.write(json.dumps(e) + "\n")
+        return spans, n
+
+    def tlc():
+        env = C.scrubbed_env({"TRACE": path, "JAVA_TOOL_OPTIONS": "-Xss512m -Dtlc2.tool.queue.IStateQueue=StateDeque"})
+        metadir = path + ".states"
+        p = subprocess.run(["timeout", "1800", "tlc", "-workers", "1", "-metadir", metadir, "-cleanup", "-noGenerateSpecTE",
+                            "-config", "ConcTrace_c10.cfg" if tag == "c10" else "ConcTrace.cfg", "ConcTrace.tla"], cwd=C.SPEC, env=env,
+                           stdout=subprocess.PIPE, stderr=subprocess.STDOUT, text=True)
+        subprocess.run(["rm", "-rf", metadir])
+        out = p.stdout
+        m = re.search(r"longest explained prefix \(lines\)\",\s*(\d+)", out)
+        inv = re.search(r"Invariant (\w+) is violated", out)
+        st = re.search(r"(\d+) states generated, (\d+) distinct states found", out)
+        ok = "Model checking completed. No error has been found" in out and not m and not inv
+        return {"ok": ok, "prefix": int(m.group(1)) if m else None, "invariant": inv.group(1) if inv else None,
+                "states": int(st.group(2)) if st else 0, "tail": out[-1500:]}
+
+    t0 = time.time()
+    total_events = accepted = 0
+    drift, rounds = [], 0
+    rest = list(runs)
+    states = 0
+    while rest and rounds < 6:
+        rounds += 1
+        spans, n = write(rest)
+        r = tlc()
+        states += r["states"]
+        if r["ok"]:
+            accepted += len(rest)
+            total_events += n
+            break
+        if r["invariant"]:
+            V.violation({"invariant": r["invariant"], "tlc": r["tail"][-600:]},
+                        "an invariant of Conc.tla is violated in a state of a validated real execution")
+            break
+        if r["prefix"] is None:
+            raise C.ToolError("TLC trace validation (ConcTrace) failed to run: %s" % r["tail"])
+        k = next((i for i, (a, b) in enumerate(spans) if a <= r["prefix"] + 1 <= b), len(spans) - 1)
+        accepted += k
+        total_events += spans[k][0] - 1
+        sc, log = rest[k]
+        drift.append({"scenario": norm_sc(sc), "unexplained_event_in_run": r["prefix"] + 2 - spans[k][0],
+                      "acquisitions": [[e["t"], e["map"], e["mode"], e["shard"]] for e in log if e["ph"] == "acq" and e["t"] in (1, 2)][:80]})
+        rest = rest[k + 1:]
+    try:
+        os.unlink(path)
+    except OSError:
+        pass
+    V.notes["conc_trace_validation"] = {"executions": len(runs), "accepted": accepted, "events": total_events, "tlc_states": states,
+                                        "model_drift_runs": len(drift), "first_drift": drift[:1], "wall_s": round(time.time() - t0, 1)}
+    V.drift += len(drift)
+    return accepted
+
+
 def check_c09(tier):
     set_watchdog(tier)
     V = C.Verdict("C09", tier, "model_checking")
@@ -188,7 +270,7 @@ def check_c09(tier):
     for n, rep in enumerate(reps):
         for one in (False, True):
             cid = len(cases)
-            case, rendered, jl = build_case(cid, rep, one)
+            case, rendered, jl = build_case(cid, rep, one, log=(n % (3 if tier == "quick" else 1) == 0))
             info[cid] = (rep, rendered, one, "tlc")
             cases.append(case)
         # one additional seeded random schedule per behaviour (beyond what TLC sampled)
@@ -226,7 +308,11 @@ def check_c09(tier):
                     V.drift += 1
     if reps:
         V.sample({"scenario": reps[0]["sc"], "sched": reps[0]["sched"]})
+    # B2: the lock-acquisition logs of the executions are behaviours of Conc.tla (ConcTrace.tla)
+    logged = [(info[cid][0]["sc"], r["log"]) for cid, r in sorted(res.items()) if isinstance(r, dict) and r.get("log")]
+    n_acc = conc_trace_validate(V, logged, "c09") if logged else 0
     cov = {"states": meta["distinct"], "transitions": meta["transitions"], "traces_validated_against_impl": len(res),
+           "lock_logs_validated_by_tlc": n_acc,
            "schedules_followed_exactly": exact, "tlc_behaviours": len(reps), "exhaustive": True,
            "tlc": {"cfg": "Conc_c09.cfg", "wall_s": meta["wall_s"], "cached": meta.get("cached", False)}}
     return V.finish(
@@ -266,7 +352,8 @@ def check_c10(tier):
             for m2 in menu:
                 extra.append({"op": "analyze", "path": UNI.paths["fa"], "text": text_of("fa", m2)})
                 extra.append({"op": "snapshot"})
-            case, rendered, jl = build_case(cid, rep, one, schedule=sched, extra_post=extra)
+            case, rendered, jl = build_case(cid, rep, one, schedule=sched, extra_post=extra,
+                                            log=(n % (3 if tier == "quick" else 1) == 0))
             for m2 in menu:
                 rendered.setdefault("fa", []).append(R.render_checked(UNI, "fa", m2))
             info[cid] = (rep, rendered, kind, jl)
@@ -341,6 +428,10 @@ def check_c10(tier):
             V.violation(e2, "index after scan/editor interleaving contains records of neither the editor's nor the on-disk content")
     # ---- coarse-grained confirmation through the REAL binary: didOpen right after initialize (racing the
     # background scan, which is kept busy by filler files) vs after "Workspace scan complete"
+    # B2: the lock-acquisition logs of the executions (scan worker and editor on the SAME file) are behaviours of Conc.tla
+    logged = [(info[cid][0]["sc"], r["log"]) for cid, r in sorted(res.items()) if isinstance(r, dict) and r.get("log")]
+    if logged:
+        conc_trace_validate(V, logged, "c10")
     nbin = c10_binary(V, tier)
     if reps:
         V.sample({"scenario": reps[0]["sc"], "sched": reps[0]["sched"], "editorWins": reps[0]["editorWins"]})
